@@ -93,7 +93,9 @@ class Prop:
                 ops.append({"k": "gc"})
             elif x < 0.06:
                 ops.append({"k": "drop", "o": r.randrange(npool + 2)})
-            elif x < 0.075:
+            elif x < 0.068:
+                ops.append(G.gen_detached_op(r, npool))
+            elif x < 0.08:
                 ops.append({"k": "redefine", "o": r.randrange(npool + 1),
                             "name": r.choice(["value", "child", "children", "children", "table",
                                               "group"])})
@@ -173,6 +175,7 @@ class Prop:
         world.allow_k3 = cfg.get("allow_k3", False)
         world.del_enabled = True
         world.redefine_enabled = True
+        world.detached_enabled = True
         self._allow_k4 = cfg.get("allow_k4", False)
         ops = trace["ops"]
         for i, op in enumerate(ops):
